@@ -30,6 +30,8 @@ def shards(tier):
         {"name": "rand.torch", "mode": "jit", "backend": "torch", "fn": "rand", "n": 100 if q else 3000},
         {"name": "big.np.jit", "mode": "jit", "backend": "np", "fn": "big", "n": 1 if q else 25},
         {"name": "big.torch", "mode": "jit", "backend": "torch", "fn": "big", "n": 1 if q else 6},
+        {"name": "forms.torch", "mode": "jit", "backend": "torch", "fn": "rand", "n": 50 if q else 1500, "forms": 1},
+        {"name": "forms.mask.torch", "mode": "jit", "backend": "torch", "fn": "masks", "n": 40 if q else 600, "forms": 1},
     ]
     nsh = 4 if q else 8
     per = 11520 // nsh
